@@ -66,6 +66,13 @@ pub trait PropCheck: Sync {
     }
     /// evaluate a batch; must be a pure function of the cases
     fn eval(&self, w: Option<&mut Worker>, cases: &[Self::Case]) -> Result<Vec<Outcome>, String>;
+    /// evaluation used while shrinking (a check may use cheaper confirmation there)
+    fn eval_shrink(&self, w: Option<&mut Worker>, case: &Self::Case) -> Result<Outcome, String> {
+        self.eval(w, std::slice::from_ref(case)).map(|mut o| o.pop().unwrap_or_default())
+    }
+    fn max_shrink_evals(&self) -> u64 {
+        600
+    }
     fn case_json(&self, case: &Self::Case) -> Value;
     fn case_from_json(&self, v: &Value) -> Result<Self::Case, String>;
 }
@@ -155,6 +162,8 @@ pub fn prop_no(prop: &str) -> u64 {
 pub fn run_generated<C: PropCheck>(check: &C, cfg: &RunCfg, cases: u64, batch: usize, shards: usize, findings: &Findings, stream: u64) -> Report {
     let known = findings.for_property(cfg.prop);
     let total = Mutex::new(Report::default());
+    // development aid: GEV_CASES overrides the number of generated cases (never set by registered commands)
+    let cases = std::env::var("GEV_CASES").ok().and_then(|s| s.parse::<u64>().ok()).unwrap_or(cases);
     let per = (cases + shards as u64 - 1) / shards as u64;
     std::thread::scope(|sc| {
         for shard in 0..shards {
@@ -248,13 +257,13 @@ pub fn run_generated<C: PropCheck>(check: &C, cfg: &RunCfg, cases: u64, batch: u
                             let mut evals = 0u64;
                             if tree.simplify() {
                                 loop {
-                                    if evals >= 600 {
+                                    if evals >= check.max_shrink_evals() {
                                         break;
                                     }
                                     let cur = tree.current();
                                     evals += 1;
-                                    let o = match check.eval(worker.as_mut(), std::slice::from_ref(&cur)) {
-                                        Ok(mut o) => o.pop().unwrap_or_default(),
+                                    let o = match check.eval_shrink(worker.as_mut(), &cur) {
+                                        Ok(o) => o,
                                         Err(e) => {
                                             rep.errors.push(format!("during shrink: {}", e));
                                             break;
